@@ -192,7 +192,23 @@ def run(facts, cg):
         if early:
             finding('R-WRITE-ON-REMOVE', b.q, 'refused-before-lookup', 'the feed can report success (%s) without having asked the clone index for the chunk: a chunk the output '
                     'still needs is turned down on other grounds and never written' % early[0])
-        instances.append({'rule': 'R-WRITE-ON-REMOVE', 'function': b.q, 'removed_location_dispatches': len(some_edges), 'offset_loops': len(heads),
+        # ... and a chunk is written only where a chunk of its size belongs: its length is compared with the size the location
+        # records before the loop over the offsets (the hash is the dictionary's word, it may be truncated or simply wrong)
+        dom_f = b.dominators()
+        size_cmp = []
+        for sbi in b.live:
+            for st_ in b.blocks[sbi]['stmts']:
+                if st_['k'] == 'assign' and st_['rv']['k'] == 'binop' and st_['rv']['op'] in ('Eq', 'Ne'):
+                    ta = simplify(T.of_operand(b, st_['rv']['a']))
+                    tb = simplify(T.of_operand(b, st_['rv']['b']))
+                    for x, y in ((ta, tb), (tb, ta)):
+                        if (has_call(x, 'VerifiedChunk::len') or has_call(x, 'Chunk::len') or has_call(x, '::len')) and has_call(y, 'ChunkLocation::size'):
+                            size_cmp.append(sbi)
+        sized = bool(heads) and all(any(c in dom_f.get(h, ()) for c in size_cmp) for h in heads)
+        if heads and not sized:
+            finding('R-WRITE-ON-REMOVE', b.q, 'size-unchecked', 'a chunk is written at the offsets of a location without its length having been compared with the size that '
+                    'location records: a chunk of another size (an inconsistent dictionary, a truncated-hash collision) is written over its neighbours and beyond the source')
+        instances.append({'rule': 'R-WRITE-ON-REMOVE', 'function': b.q, 'removed_location_dispatches': len(some_edges), 'offset_loops': len(heads), 'length_compared_with_location_size': sized,
                           'success_exits_with_unwritten_location': len(r.violations), 'loop_turns_without_write': len(skipped)})
         if not heads:
             finding('R-WRITE-ON-REMOVE', b.q, 'anchor', 'a location is taken out of the clone index but no loop over its offsets is found (cannot decide)')
